@@ -284,4 +284,14 @@ theorem C12_record_round_trip_all_modes (hint : Hint) (owner : WName) (ty cls tt
       be16 msg (s.cursor + k + 8) = (s'.cursor - (s.cursor + k + 10)) % 65536 :=
   addRr_round_trip hint owner ty cls ttl rd s s' hw hwf hh hty hcls httl h msg hmsg
 
+/-- the same for the question (`add_question`): QNAME, then QTYPE and QCLASS -/
+theorem C12_question_round_trip_all_modes (qn : WName) (qt qc : Nat) (s s' : State) (hw : WInv s)
+    (hwf : qn.WF) (hqt : qt < 65536) (hqc : qc < 65536)
+    (h : addQuestionBody qn qt qc s = (.ok (), s')) (msg : Bytes)
+    (hmsg : ∀ i, i < s'.cursor → msg[i]? = s'.octets[i]?) :
+    ∃ w k, Spec.specDecodeName msg s.cursor = some (w, qn.len, k) ∧ s'.cursor = s.cursor + k + 4 ∧
+      w.map lowerU8 = qn.wire.map lowerU8 ∧ (s.mode ≠ .standard → w = qn.wire) ∧
+      be16 msg (s.cursor + k) = qt ∧ be16 msg (s.cursor + k + 2) = qc :=
+  addQuestionBody_round_trip qn qt qc s s' hw hwf hqt hqc h msg hmsg
+
 end QV.C12
